@@ -6,6 +6,7 @@ import z3
 from .sorts import (B, Ref, fresh, sort_of, default_of)
 
 _loc_ids = itertools.count(1)
+_epochs = itertools.count(1)
 
 
 class Container:
@@ -48,6 +49,7 @@ class State:
         self.obligations = []  # shared list (not copied on fork)
         self.axioms = []  # shared list of lemma instances (valid formulas)
         self.notes = []
+        self.epoch = next(_epochs)  # one per root state (verification run of one parameter combination)
 
     # -- forking -----------------------------------------------------------------------
     def fork(self):
@@ -62,6 +64,7 @@ class State:
         s.obligations = self.obligations
         s.axioms = self.axioms
         s.notes = self.notes
+        s.epoch = self.epoch
         return s
 
     def assume(self, f):
@@ -74,7 +77,9 @@ class State:
         key = (cls, field)
         if key not in self.heap:
             t = self.schema.fields[cls][field]
-            self.heap[key] = fresh("H_%s_%s" % (cls, field), z3.ArraySort(Ref(cls), sort_of(t)))
+            # the initial array has a fixed name: lazily creating it in two forks of one
+            # execution yields the same term
+            self.heap[key] = z3.Const("H0_%s_%s_e%d" % (cls, field, self.epoch), z3.ArraySort(Ref(cls), sort_of(t)))
         return self.heap[key]
 
     def read(self, cls, ref, field):
@@ -86,7 +91,7 @@ class State:
 
     def alive_array(self, cls):
         if cls not in self.alive:
-            self.alive[cls] = fresh("alive_" + cls, z3.ArraySort(Ref(cls), B))
+            self.alive[cls] = z3.Const("alive0_%s_e%d" % (cls, self.epoch), z3.ArraySort(Ref(cls), B))
         return self.alive[cls]
 
     def is_alive(self, cls, ref):
@@ -112,12 +117,12 @@ class State:
                 ks, vs = sort_of(spec[1]), sort_of(spec[2])
                 self.locs[name] = Container(
                     "dict", kt=spec[1], vt=spec[2],
-                    dom=fresh("G_%s_dom" % name, z3.ArraySort(ks, B)),
-                    val=fresh("G_%s_val" % name, z3.ArraySort(ks, vs)),
+                    dom=z3.Const("G0_%s_dom_e%d" % (name, self.epoch), z3.ArraySort(ks, B)),
+                    val=z3.Const("G0_%s_val_e%d" % (name, self.epoch), z3.ArraySort(ks, vs)),
                     default=spec[3] if len(spec) > 3 else None)
             elif spec[0] == "set":
                 ks = sort_of(spec[1])
-                self.locs[name] = Container("set", kt=spec[1], dom=fresh("G_%s" % name, z3.ArraySort(ks, B)))
+                self.locs[name] = Container("set", kt=spec[1], dom=z3.Const("G0_%s_e%d" % (name, self.epoch), z3.ArraySort(ks, B)))
             else:
                 raise NotImplementedError(spec)
         return self.locs[name]
